@@ -269,8 +269,7 @@ impl<C: Suite> Interp<C> {
         Value::Array(c.coefficients().iter().map(|x| Self::ej(&x.value())).collect())
     }
     pub fn kp_j(&self, kp: &KeyPackage<C>) -> Value {
-        json!({"id": self.idj(kp.identifier()), "id_enc": bytes_json(&kp.identifier().serialize()),
-               "share": Self::sj(&kp.signing_share().to_scalar()),
+        json!({"id": self.idj(kp.identifier()), "share": Self::sj(&kp.signing_share().to_scalar()),
                "vs": Self::ej(&kp.verifying_share().to_element()),
                "vk": Self::ej(&kp.verifying_key().to_element()), "min": *kp.min_signers()})
     }
